@@ -46,7 +46,9 @@ pub fn extra(args: &[String]) {
     for line in read_lines(&texts) {
         let rec: serde_json::Value = serde_json::from_str(&line).unwrap();
         let text = from_cps(&rec["text"]);
-        if text.chars().count() > 160 {
+        // texts marked long (deep for the parser of grammar files) are fed whole to the focus rules only
+        let long = rec["long"] == true;
+        if text.chars().count() > 160 && !long {
             continue;
         }
         // positions: start of the text and of up to 5 blank-separated chunks
@@ -54,7 +56,7 @@ pub fn extra(args: &[String]) {
         let mut prev_ws = true;
         for (i, ch) in text.char_indices() {
             let ws = ch == ' ' || ch == '\n';
-            if prev_ws && !ws && i > 0 && starts.len() < 6 {
+            if prev_ws && !ws && i > 0 && starts.len() < 6 && !long {
                 starts.push(i);
             }
             prev_ws = ws;
@@ -63,7 +65,7 @@ pub fn extra(args: &[String]) {
             let t = &text[*st..];
             for r in &rules {
                 let is_focus = focus.contains(&r.as_str());
-                if !(is_focus || (si == 0 && (n + r.len() as u64) % 3 == 0)) {
+                if !(is_focus || (si == 0 && !long && (n + r.len() as u64) % 3 == 0)) {
                     continue;
                 }
                 if si > 0 && r == "grammar_rules" {
